@@ -43,7 +43,7 @@ func main() {
 	mk := func(n string) *e2e.HTTPUpstream { u := e2e.NewHTTPUpstream(n, reg); names[u.Addr] = n; return u }
 	a1, a2, a3, b1, b2 := mk("a1"), mk("a2"), mk("a3"), mk("b1"), mk("b2")
 	defer func() { a1.Close(); a2.Close(); a3.Close(); b1.Close(); b2.Close() }()
-	laddr := e2e.FreeAddr()
+	laddr := e2e.ListenerAddr()
 	lst := e2e.BuildListener(e2e.ListenerSpec{Name: "sys", Addr: laddr, Downstream: "Http1", Upstream: "Http1",
 		Routes: []e2e.RouteSpec{{Prefix: "/", Cluster: "A"}}})
 	cfg := e2e.BuildConfig([]v2.Listener{lst}, e2e.BuildClusters([]e2e.ClusterSpec{
